@@ -348,4 +348,12 @@ def sRun (cfg : Cfg) : Spec → List (Op × Ora) → List Obs
     let (sp1, o) := sStep cfg sp op ora
     o :: sRun cfg sp1 r
 
+def sRunSt (cfg : Cfg) : Spec → List (Op × Ora) → Spec
+  | sp, [] => sp
+  | sp, (op, ora) :: r => sRunSt cfg (sStep cfg sp op ora).1 r
+
+/-- every proper ancestor of `p` is a directory of the (post-crash) tree -/
+def ancestorsAreDirs (sp : Spec) (p : Path) : Bool :=
+  (List.range p.length).all fun n => isDirAt sp (p.take n)
+
 end TV.Fs
